@@ -108,6 +108,13 @@ CHECKS = {
             'the frame carrying exactly that lift must estimate it with lower bound t_pow x scale; an independent closed form '
             'attributes disagreements; unit scaling (2^k exact), level shift, monotonicity and sign symmetry in the '
             'correlation are checked as run pairs.', '§5 C05'),
+    'C06': ('reference-model monitor: closed-form TBR posterior (numpy OLS + Kerman eq. 5) vs the real tbr.TBR; layout run pairs; design-side differential',
+            'For generated experiment frames (n_pre 3..59, with / without cooldown, 1-6 geos per group, unassigned geos, gap '
+            'and trailing periods) every analysed day of the real causal_cumulative_distribution is compared with df = n_pre-2, '
+            'the cumulative OLS-counterfactual difference and the eq.-5 scale computed from pure-Python per-date totals; '
+            'shuffled / geo-split / extra-unassigned layouts must give the same posterior; every summary column (estimate, '
+            'precision, lower, upper, scale, probability, echoes, report rows) is checked for random level / tails / '
+            'threshold / rescale; TBRMMDiagnostics.tbrfit must agree with the last-day estimate and half-width.', '§5 C06'),
 }
 
 NOT_YET = {}
